@@ -167,7 +167,7 @@ def print_bdl(p, layout=None, want_doc=False):
         for sp in fl.get("spaces", []):
             a = [("SHAPE", "POLYGON"), ("POLYGON", q(sp["polygon"])), ("TYPE", sp.get("type", "CONDITIONED")),
                  ("SPACE-TYPE", q(sp.get("spacetype", "Residencial"))), ("MULTIPLIER", sp.get("mult", 1)), ("MULTIPLIED", 0),
-                 ("POWER", 4.4), ("VEEI-OBJ", 7.0), ("VEEI-REF", 10.0)]
+                 ("POWER", sp.get("power", 4.4)), ("VEEI-OBJ", sp.get("veei_obj", 7.0)), ("VEEI-REF", sp.get("veei_ref", 10.0))]
             for k, kk in (("height", "HEIGHT"), ("x", "X"), ("y", "Y"), ("z", "Z"), ("azimuth", "AZIMUTH"), ("nv", "AIR-CHANGES/HR")):
                 if k in sp:
                     a.append((kk, sp[k]))
